@@ -59,7 +59,9 @@ def pure_direct(case, obs):
         what = "%s(%s) on %s" % (OPNAME.get(calls[i][0], calls[i][0]), _short(calls[i][1]), _schema_text(pl))
         if "differs" in it:
             return ("%d evaluations of %s on freshly built, equal arguments did not all give the same result "
-                    "(the result depends on map iteration order)" % (20, what))
+                    "(the result depends on map iteration order - or on what the CALLER did with an earlier result: after each "
+                    "result is printed the harness writes into every list and map of it, as a step handler may; a result that "
+                    "shares memory with the schema's decoded defaults then comes back changed)" % (20, what))
         if "mutated" in it:
             return "%s modified the argument passed to it" % what
     for x in o[1:]:
@@ -390,7 +392,10 @@ def register(props):
     props.PROPS["C12"] = {
         "theory": "Properties/C12.v",
         "families": ["c12pure", "c12struct"],
-        "rule": "[unit caches: `state` also covers the two lazily filled caches of every units definition of the instance (sorted "
+        "rule": "[result aliasing: after every successful Unserialize / Serialize the harness writes into every []any / map[string]any / "
+                "map[any]any of the RESULT (the caller's own value): GetDefaults (`state`), the next evaluation of the same call "
+                "(`same`) and the used-vs-fresh comparison (`after`) must not see it] "
+                "[unit caches: `state` also covers the two lazily filled caches of every units definition of the instance (sorted "
                 "multipliers, compiled expression + group index), read passively by reflection after EVERY call (rejected ones "
                 "included): a filled cell must hold what a first use on a separate fresh instance computes; `after` also compares "
                 "Format{Short,Long}{Int,Float} of fixed probe numbers of every units definition (used vs untouched instance) and "
